@@ -56,6 +56,7 @@ type workerResult struct {
 	notes    []string
 	died     bool
 	hung     bool
+	oom      bool
 	lastID   string
 	stderr   string
 	finished bool
@@ -67,8 +68,24 @@ type violRec struct {
 	Sample any        `json:"input,omitempty"`
 }
 
+// MaxWorkerRSSMiB: a worker growing beyond this is killed (the sandbox has no memory limit of its own).
+var MaxWorkerRSSMiB = 3500
+
+func rssMiB(pid int) int {
+	b, err := os.ReadFile(fmt.Sprintf("/proc/%d/statm", pid))
+	if err != nil {
+		return 0
+	}
+	f := strings.Fields(string(b))
+	if len(f) < 2 {
+		return 0
+	}
+	pages, _ := strconv.Atoi(f[1])
+	return pages * (os.Getpagesize() / 1024) / 1024
+}
+
 // HangSilence is how long a worker may stay silent before it is declared hung.
-var HangSilence = 180 * time.Second
+var HangSilence = 120 * time.Second
 
 func runWorker(self string, prop, tier string, seed int64, shard, n int, announce bool, resumeAfter string, deadline time.Duration, extraEnv []string) *workerResult {
 	args := []string{"worker", prop, tier,
@@ -108,6 +125,11 @@ func runWorker(self string, prop, tier string, seed int64, shard, n int, announc
 				mu.Unlock()
 				if silent > HangSilence {
 					res.hung = true
+					cmd.Process.Kill()
+					return
+				}
+				if rss := rssMiB(cmd.Process.Pid); rss > MaxWorkerRSSMiB {
+					res.oom = true
 					cmd.Process.Kill()
 					return
 				}
@@ -237,6 +259,12 @@ func ParentMain(p Prop, tier string, seed int64, po ParentOpts) int {
 			resume := ""
 			for attempt := 0; attempt < 12; attempt++ {
 				r := runWorker(self, id, tier, seed, i, n, false, resume, po.Deadline, po.ExtraEnv)
+				if r.oom {
+					mu.Lock()
+					infra = append(infra, fmt.Sprintf("shard %d: worker exceeded %d MiB of memory and was stopped; the shard is incomplete", i, MaxWorkerRSSMiB))
+					mu.Unlock()
+					break
+				}
 				if !r.died && !r.hung {
 					mergeInto(agg, r)
 					agg.finished = true
